@@ -344,9 +344,45 @@ func callGraph(prog *ssa.Program, cg *callgraph.Graph, p *packages.Package) *CG 
 		res.Dynamic = append(res.Dynamic, d)
 	}
 	sort.Strings(res.Dynamic)
+	// functions from which a cycle of the package's call graph can be reached: only calls to those matter for the
+	// guard pattern (a call to a helper that can never lead back into recursion, e.g. a location accessor used
+	// while building the limit error, is harmless wherever it stands)
+	n := len(fns)
+	adj := make([][]int, n)
+	for e := range edgeSet {
+		adj[e[0]] = append(adj[e[0]], e[1])
+	}
+	reach := make([]map[int]bool, n)
+	for i := 0; i < n; i++ {
+		seen := map[int]bool{}
+		stack := append([]int(nil), adj[i]...)
+		for len(stack) > 0 {
+			v := stack[len(stack)-1]
+			stack = stack[:len(stack)-1]
+			if seen[v] {
+				continue
+			}
+			seen[v] = true
+			stack = append(stack, adj[v]...)
+		}
+		reach[i] = seen
+	}
+	canRecurse := map[string]bool{}
+	for i := 0; i < n; i++ {
+		if reach[i][i] {
+			canRecurse[fnName(fns[i])] = true
+			continue
+		}
+		for v := range reach[i] {
+			if reach[v][v] {
+				canRecurse[fnName(fns[i])] = true
+				break
+			}
+		}
+	}
 	// guards
 	for i, fn := range fns {
-		inc, deferDec, cmp := depthFacts(fn)
+		inc, deferDec, cmp := depthFacts(fn, canRecurse)
 		if inc {
 			res.DepthInc = append(res.DepthInc, i)
 		}
@@ -365,9 +401,10 @@ func callGraph(prog *ssa.Program, cg *callgraph.Graph, p *packages.Package) *CG 
 //	inc:      a store recv.depth = recv.depth + 1 in a block Binc, before any in-package call of that block
 //	deferDec: a defer of a closure whose body stores depth = depth - 1, in a block Bdef dominated by Binc
 //	cmp:      a block Bcmp (dominated by Bdef) ending in `if recv.depth > K` whose true side returns, and whose
-//	          false side dominates every block of fn that calls a function of the package (so no recursive
-//	          descent can happen before the counter was incremented and checked)
-func depthFacts(fn *ssa.Function) (inc, deferDec, cmp bool) {
+//	          false side dominates every block of fn that calls a function of the package from which a cycle of
+//	          the call graph can be reached (so no recursive descent can happen before the counter was
+//	          incremented and checked; calls to helpers that cannot lead into recursion are ignored)
+func depthFacts(fn *ssa.Function, canRecurse map[string]bool) (inc, deferDec, cmp bool) {
 	if len(fn.Blocks) == 0 {
 		return
 	}
@@ -384,7 +421,14 @@ func depthFacts(fn *ssa.Function) (inc, deferDec, cmp bool) {
 			return false
 		}
 		sc := c.Common().StaticCallee()
-		return sc != nil && sc.Pkg == fn.Pkg && sc.Parent() == nil
+		if sc == nil {
+			// a call through a function value or an interface: cannot be shown harmless
+			if _, isBuiltin := c.Common().Value.(*ssa.Builtin); isBuiltin {
+				return false
+			}
+			return c.Common().IsInvoke() == false
+		}
+		return sc.Pkg == fn.Pkg && canRecurse[fnName(rootFn(sc))]
 	}
 	var bInc, bDef, bCmp *ssa.BasicBlock
 	for _, b := range fn.Blocks {
